@@ -393,15 +393,22 @@ func updateResOne(res Resolver, rel UniRel) []UniRel {
 	}
 }
 
-func updateResolver(res Resolver, rels []UniRel) Resolver {
+func updateResolverN(count int, res Resolver, rels []UniRel) Resolver {
+	frt.IfOnly((count > 1000), (func() {
+		PanicNow("Too many unification rounds, maybe cyclic type, give up")
+	}))
 	nrels := frt.Pipe(frt.Pipe(rels, (func(_r0 []UniRel) [][]UniRel {
 		return slice.Map((func(_r0 UniRel) []UniRel { return updateResOne(res, _r0) }), _r0)
 	})), slice.Concat)
 	return frt.IfElse(slice.IsEmpty(nrels), (func() Resolver {
 		return res
 	}), (func() Resolver {
-		return updateResolver(res, nrels)
+		return updateResolverN((count + 1), res, nrels)
 	}))
+}
+
+func updateResolver(res Resolver, rels []UniRel) Resolver {
+	return updateResolverN(0, res, rels)
 }
 
 func transTypeLfd(transTV func(TypeVar) FType, lfd LetFuncDef) LetFuncDef {
@@ -412,8 +419,11 @@ func transTypeLfd(transTV func(TypeVar) FType, lfd LetFuncDef) LetFuncDef {
 	return LetFuncDef{Fvar: nfvar, Params: nparams, Body: nbody}
 }
 
-func resolveOneTypeVar(rsv Resolver, tv TypeVar) FType {
-	recurse := (func(_r0 TypeVar) FType { return resolveOneTypeVar(rsv, _r0) })
+func resolveOneTypeVarD(depth int, rsv Resolver, tv TypeVar) FType {
+	frt.IfOnly((depth > 1000), (func() {
+		PanicNow("Too deep type resolution, maybe cyclic type, give up")
+	}))
+	recurse := (func(_r0 TypeVar) FType { return resolveOneTypeVarD((depth + 1), rsv, _r0) })
 	ei := rsLookupEI(rsv, tv.Name)
 	rcand := ei.resType
 	switch _v15 := (rcand).(type) {
@@ -427,6 +437,10 @@ func resolveOneTypeVar(rsv Resolver, tv TypeVar) FType {
 	default:
 		return transTVFType(recurse, rcand)
 	}
+}
+
+func resolveOneTypeVar(rsv Resolver, tv TypeVar) FType {
+	return resolveOneTypeVarD(0, rsv, tv)
 }
 
 func resolveType(rsv Resolver, ftp FType) FType {
